@@ -519,6 +519,11 @@ func (w *Worker) assertion(id string, c *Term) {
 	if cur, ok := w.evalUnderModel(c); ok && !cur {
 		r, m = Sat, w.model
 	} else {
+		if nc.size > 20000 {
+			// a huge goal (checksum-like): on the unchanged tree such goals fold syntactically; do not let a broken
+			// tree spend a full time-out on every path (unknown is reported as inconclusive for this obligation)
+			w.solver.nextTO = 10000
+		}
 		r, m = w.feasible(nc, true)
 	}
 	ms := time.Since(t0).Milliseconds()
